@@ -18,7 +18,10 @@ of advances equals a threshold (0.1 s = 102.4 ticks, 1 s = 1024 ticks, all advan
 Configuration = (max, bar width, format, verbosity, min seconds between redraws, output kind).
 Output kinds: "ansi" Output(AnsiFormatter(forced=True)), "plain" Output(PlainFormatter()), "section"
 (a SectionOutput of a forced-ANSI output, COLUMNS=20, a sentinel row above), "quiet" / "quiet-plain" /
-"quiet-section" (the same three after set_quiet(True)).
+"quiet-section" (the same three after set_quiet(True)), "section-pair" (the bar in the upper of two sections of one
+ANSI output; the lower section holds a neighbour bar - max 50, bar width 20, a 33-column frame that wraps on the 20-column
+terminal - and 'the neighbour advances' is one more operation of the history; after every operation the screen must show
+the sentinel row, the latest frame of the bar under test and the latest frame of the neighbour).
 Formats: "default" (what the bar picks for the output's verbosity: normal / verbose / very verbose / debug and
 their _nomax variants), "msg" (one line with %message%), "two" (two lines, %message% on the second); the custom
 formats come in a variant without %max%/%percent% for configurations whose maximum is 0 (= unknown).
@@ -220,6 +223,8 @@ def base_ops(cfg, opset="all"):
         ops += [("display", None), ("clear", None), ("finish", None)]
         if cfg_has_message(cfg):
             ops += [("set_message", k) for k in ("short", "long", "tagged")]
+    if cfg["out"] == "section-pair":
+        ops += [("neighbour", None)]
     return ops
 
 
@@ -286,6 +291,12 @@ def build(cfg):
         if base == "section":
             st.parent = out
             out = out.section()
+        elif base == "section-pair":
+            # the bar under test in the upper of two sections; the lower one holds a neighbour bar whose frame (33 columns)
+            # wraps on the 20-column terminal
+            st.parent = out
+            out = out.section()
+            st.lower = st.parent.section()
     if kind.startswith("quiet"):
         out.set_quiet(True)
     if cfg["verbosity"]:
@@ -299,9 +310,17 @@ def build(cfg):
     st.term = None
     if kind == "ansi":
         st.term = Term(BIGW)
-    elif kind == "section":
+    elif kind in ("section", "section-pair"):
         st.term = Term(COLS)
         st.term.feed(SENTINEL + "\n")
+    st.neigh = None
+    st.neigh_rows = []
+    st.cur_rows = []
+    if kind == "section-pair":
+        st.neigh = ProgressBar(st.lower, 50, 0)
+        st.neigh.set_bar_width(20)
+        st.neigh.start()
+        _neighbour_wrote(st, 0)
     st.now_t = 0  # ticks since T0
     st.m_step = 0
     st.m_max = max(0, cfg["max"])
@@ -312,6 +331,50 @@ def build(cfg):
     st.tail = ""  # plain: text on the last, unterminated line
     st.drew = False
     return st
+
+
+_PAIR_ALL = re.compile(r"^(?:\x1b\[\d+A\x1b\[0J|[^\r\x1b]|\x1b\[[0-9;]*m)*\n$")
+
+
+class _PairMatch(object):
+    def __init__(self, frame):
+        self.frame = frame
+
+    def group(self, i):
+        return self.frame
+
+
+def _pair_match(text):
+    """bytes of one operation of the upper bar of a section pair: any number of [cursor up, erase to end of screen, text]
+    groups (clearing re-writes the section below, drawing does so again); the frame is the first line after the last erase.
+    The layout is judged on the emulated screen, not on the bytes."""
+    if not _PAIR_ALL.match(text):
+        return None
+    tail = text[text.rfind("\x1b[0J") + 4:] if "\x1b[0J" in text else text
+    return _PairMatch(tail.partition("\n")[0])
+
+
+def _neighbour_wrote(st, n0):
+    """the neighbour bar (lower section) drew: its bytes go to the emulator, its frame is remembered as the rows it occupies"""
+    text = "".join(w for w, _ in st.stream.writes[n0:])
+    m = _SECTION_OP.match(text)
+    if not m:
+        raise RuntimeError("engine error: the neighbour bar of the section pair wrote %r" % text)
+    st.term.feed(text)
+    st.neigh_rows = wrap_rows(strip_sgr(m.group(2)), COLS)
+
+
+def _bar_vars(bar, now, capped):
+    d = {}
+    for k, v in vars(bar).items():
+        if isinstance(v, (int, float)) and not isinstance(v, bool) and v >= T0 - 1:
+            ticks = (now - v) / TICK
+            if ticks != int(ticks):
+                raise RuntimeError("engine error: clock field %r is not on the tick grid" % k)
+            d[k] = ("clock-delta-ticks", capped(int(ticks)))
+        else:
+            d[k] = v
+    return d
 
 
 _ANSI_OP = re.compile(r"^\r(?:\x1b\[(\d+)A)?((?:[^\r\x1b]|\x1b\[[0-9;]*m)*)$")
@@ -374,15 +437,9 @@ class Spec(object):
 
     def key(self, st):
         now = clock.CLOCK.now
-        d = {}
-        for k, v in vars(st.bar).items():
-            if isinstance(v, (int, float)) and not isinstance(v, bool) and v >= T0 - 1:
-                ticks = (now - v) / TICK
-                if ticks != int(ticks):
-                    raise RuntimeError("engine error: clock field %r is not on the tick grid" % k)
-                d[k] = ("clock-delta-ticks", self._capped(int(ticks)))
-            else:
-                d[k] = v
+        d = _bar_vars(st.bar, now, self._capped)
+        if st.neigh is not None:
+            d["<neighbour>"] = (_bar_vars(st.neigh, now, self._capped), tuple(st.neigh_rows), tuple(st.cur_rows))
         t = st.term
         tk = None if t is None else (tuple(t.screen()), t.r, t.c, t.pending_wrap)
         dprev = None if st.prev_write_t is None else self._capped(st.now_t - st.prev_write_t)
@@ -418,6 +475,8 @@ class Spec(object):
                 bar.finish()
             elif name == "set_message":
                 bar.set_message(MSG[arg])
+            elif name == "neighbour":
+                st.neigh.advance()
             else:
                 raise ValueError(name)
         except Exception as e:  # noqa
@@ -440,6 +499,15 @@ class Spec(object):
             st.m_step = st.m_max
         elif name == "set_message":
             st.msg = arg
+        if name == "neighbour":
+            _neighbour_wrote(st, n0)
+            exp = _rows([SENTINEL] + st.cur_rows + st.neigh_rows)
+            got = st.term.screen()
+            if got != exp:
+                sig = "section:sentinel-erased" if (not got or got[0] != SENTINEL) else "section:pair:screen-mismatch"
+                return [report.viol(sig, "after the bar in the section below redrew, the screen does not show the text above and the "
+                                         "latest frame of each bar", None, exp, got)]
+            return []
         ws = st.stream.writes[n0:]
         return self.judge(st, op, ws)
 
@@ -476,7 +544,7 @@ class Spec(object):
                                          None, "a line break between two frames", st.tail + text))
                 st.tail = (st.tail + text).rsplit("\n", 1)[-1]
             else:
-                m = (_ANSI_OP if kind == "ansi" else _SECTION_OP).match(text)
+                m = (_ANSI_OP if kind == "ansi" else _SECTION_OP).match(text) if kind != "section-pair" else _pair_match(text)
                 if not m:
                     V.append(report.viol(kind + ":unexpected-bytes", "%s wrote bytes that are not one frame" % name,
                                          None, "cursor return + one frame", text))
@@ -492,7 +560,7 @@ class Spec(object):
             if name in ("advance", "set_progress") and at_max and mx > 0:
                 V.append(report.viol("draw:none-at-maximum", "%s reached the maximum %d and nothing was drawn" % (name, mx),
                                      None, "a frame", ""))
-            if name == "finish" and kind in ("ansi", "section"):
+            if name == "finish" and kind in ("ansi", "section", "section-pair"):
                 V.append(report.viol("draw:none-at-finish", "finish drew nothing", None, "a frame", ""))
         else:
             st.drew = True
@@ -520,16 +588,19 @@ class Spec(object):
                     sig = ("ansi:residue" + tag) if _is_residue(exp, got) else "ansi:screen-mismatch"
                     V.append(report.viol(sig, "after %s the terminal does not show exactly the latest frame" % name,
                                          None, exp, got))
-            elif kind == "section":
+            elif kind in ("section", "section-pair"):
                 rows = []
                 for l in lines:
                     rows.extend(wrap_rows(l, COLS))
                 wrapped = any(len(l) > COLS for l in lines)
-                exp = _rows([SENTINEL] + rows)
+                st.cur_rows = list(rows)
+                exp = _rows([SENTINEL] + rows + st.neigh_rows)
                 got = st.term.screen()
                 if got != exp:
                     if not got or got[0] != SENTINEL:
                         sig = "section:sentinel-erased"
+                    elif kind == "section-pair":
+                        sig = "section:pair:screen-mismatch"
                     elif got[1:] and _rows(rows) and got[-len(_rows(rows)):] == _rows(rows) or not _rows(rows):
                         sig = "section:residue" + (":wrapped-frame" if (wrapped or st.prev_wrapped) else "")
                     else:
@@ -783,6 +854,10 @@ def plan(tier, seed):
     lay0 = [C(m, 4, f, o, 0) for f in ("msg", "two") for o in OUTS3 for m in (3, 0)]
     part("layout-zero", "message formats, throttle off, no clock advance: all operations", lay0, clocks=(0,),
          depth=7 if T else 5)
+    # ---- two sections: the bar under test above a section whose (wrapped) frame is redrawn in between
+    pair = [C(3, 4, "default", "section-pair", 0), C(0, 4, "default", "section-pair", 0)] + ([C(10, 28, "default", "section-pair", 0)] if T else [])
+    part("section-pair", "bar in the upper of two sections, a neighbour bar with a wrapped frame in the lower one: all operations + "
+                         "'the neighbour advances', throttle off, no clock advance", pair, clocks=(0,), depth=5 if T else 4)
     # ---- timing: the progress operations x every clock advance
     what = "start/advance(1)/advance(3)/set_progress(max)/display/finish x all clock advances; "
     tim3 = [C(3, 4, "default", "ansi", 0.1), C(3, 4, "default", "plain", 0.1), C(3, 4, "default", "ansi", 0),
